@@ -222,6 +222,40 @@ def oracle_c01(case, obs):
     return fails
 
 
+# ---- F-C01a: addon edits that write framing fields are forwarded unvalidated -------------------------------------------
+FRAMING_EDITS = [(b"Content-Length", b"7"), (b"Content-Length", b"0"), (b"Content-Length", b"x"), (b"Content-Length", b"3, 4"),
+                 (b"Transfer-Encoding", b"gzip"), (b"Transfer-Encoding", b"chunked"), (b"Transfer-Encoding", b"chunked, gzip"),
+                 (b"X Bad", b"v"), (b"X-Bad:", b"v"), (b"", b"v")]
+
+
+def is_framing_edit(e):
+    """the edit WRITES a field that takes part in the framing decision or is not a field at all: Content-Length,
+    Transfer-Encoding, or a name that is not an RFC 9110 token"""
+    if e.get("op") not in ("set", "add"): return False
+    name = unhx(e.get("name_hex", "-"))
+    return name.lower() in (b"content-length", b"transfer-encoding") or not R.TOKEN.match(name)
+
+
+def add_framing_edit(edits, flow, at, op, name, value):
+    streamed = {(e["flow"], e["at"][:-7]) for e in edits if e["op"] == "stream"}
+    if (flow, at) in streamed: at += "headers"          # once the head is streamed, later edits cannot reach the wire (as gen_edits)
+    return list(edits) + [{"flow": flow, "at": at, "op": op, "name_hex": hx(name), "value_hex": hx(value)}]
+
+
+def self_inconsistent(snap, is_request, req_method=None):
+    """does the message the flow holds (after the edits) no longer describe itself — for the strict reader its fields are
+    ambiguous / not fields, or they announce another body than the one the flow holds?  -> reason | None"""
+    if snap is None: return None
+    fields = [(unhx(k), unhx(v)) for k, v in snap["fields"]]
+    if any(not R.TOKEN.match(k) for k, _ in fields): return "bad-field-name"
+    fr = R.framing(fields, unhx(snap["version"]), is_request, snap.get("status"), req_method)
+    body = unhx(snap["body"]) if snap.get("body") else b""
+    if fr[0] == "ambiguous": return "ambiguous:" + str(fr[1])
+    if fr[0] == "cl" and fr[1] != len(body): return "content-length-differs-from-body"
+    if fr[0] == "none" and body: return "body-without-framing"
+    return None
+
+
 def branch_labels(case, obs):
     out = ["mode:" + case["mode"]]
     s = R.parse_requests(unhx(case["client_hex"]))
@@ -497,7 +531,10 @@ class Check(PropertyCheck):
                   "Content-Length / Transfer-Encoding themselves are never folded — parseTE_plain — so the fold theorems carry no extra "
                   "hypothesis); forward_request_roundtrip / forward_stream_roundtrip / relay_response_roundtrip_full: the full DESIGN "
                   "statements (ForwardRequestRoundtrip, ForwardStreamRoundtrip) for EVERY message validate_headers accepts — values "
-                  "with CR LF or bare-LF folds included, no decomposition assumed (dec, dec_ok, joinG_dec compute and justify it). "
+                  "with CR LF or bare-LF folds included, no decomposition assumed (dec, dec_ok, joinG_dec compute and justify it); "
+                  "ForwardStreamRoundtrip compares, for the whole pipelined stream, number, order and per message method, target, "
+                  "version, header fields (folds read as SP) and body (strengthened in audit round 6: it used to compare method, "
+                  "target and body only). "
                   "The oracle's abstentions are each as narrow as their reason (HTTP/2.0-versioned request lines are compared modulo "
                   "exactly the h2->h1 conversion of that flow; response pairing skips only what an addon edit touched). "
                   "The real HttpLayer (regular/reverse/transparent, validate_inbound_headers on) is checked directly: bytes written "
@@ -506,8 +543,17 @@ class Check(PropertyCheck):
                   "function to the real code, and the Lean Ref to the Python reference parser.")
     level_note = ("The round-trip theorems quantify over ReqHead/RespHead records that validate_headers accepts, with whitespace-free "
                   "request-line parts / HTTP/d.d + status 100..999 + a reason without line breaks, names without LF and a body "
-                  "consistent with the headers (what the readers produce and set_content maintains); there is no pipelined-stream "
-                  "theorem on the response side (responses are relayed one per request). A 2xx answer to "
+                  "consistent with the headers (what the readers produce and set_content maintains). ADDON EDITS: 'including any addon "
+                  "edits' is proved in exactly this form — the theorems hold for the fields and body that are SENT, wherever they come "
+                  "from, PROVIDED the edited head still passes validate_headers and the body is still consistent with it "
+                  "(BodyConsistent; set_content maintains it, a direct edit of Content-Length does not). The code does NOT establish "
+                  "that proviso for edited messages: validate_headers runs in HttpStream.check_invalid before the hooks and is not "
+                  "re-run before Http1Client.send / Http1Server.send. Edits that write Content-Length, Transfer-Encoding or a non-token "
+                  "name and break the proviso are forwarded as edited: finding F-C01a (by design: inbound validation, trusted addons; "
+                  "generated at 4% of the exchanges, classified exactly, everything else about such a case is still judged). "
+                  "Responses: there is no pipelined-stream theorem on the response side — 'the same holds for responses' is proved per "
+                  "message (relay_response_roundtrip_full); number and order of several responses on one connection are C02's "
+                  "answered_in_order (model) and the resp:/resp-pairing oracle clauses here (real layer). A 2xx answer to "
                   "CONNECT (produced by the proxy itself, opens a tunnel) is excluded from relay_response_roundtrip; status codes are "
                   "rendered with three digits (100..999, what the HTTP/1 reader produces). The real layer's bytes are covered by the "
                   "reference-parser oracle and the fwdreq/fwdresp/refreqs/refresp "
@@ -517,7 +563,8 @@ class Check(PropertyCheck):
                   "Reference reader deliberately lenient where framing is not at stake: "
                   "request-line tokens only need to be SP-delimited (a non-token method is not judged), NUL only rejected in field "
                   "values. Excluded: request lines announcing HTTP/2.0 or HTTP/3.0 on an HTTP/1 connection (h2->h1 conversion path, "
-                  "C06), addon edits that break the message themselves (body on HEAD/1xx/204/304 response, edits after streaming started).")
+                  "C06), addon edits that break the message themselves in ways other than F-C01a (body on HEAD/1xx/204/304 response, edits after "
+                  "streaming started: not generated).")
     technique = "Lean 4 proof (induction over field lists / bytes) + translator table + function-level differential correspondence + independent reference-parser oracle on the real layer"
     rule = ("every generator also draws non-ASCII look-alikes (Unicode decimal digits, Unicode whitespace, fullwidth / Kelvin letters, "
             "latin-1 superscripts, lone high bytes) into Content-Length, Transfer-Encoding, status, version and chunk-size positions; "
@@ -550,6 +597,77 @@ class Check(PropertyCheck):
     def setup(self, tier):
         # the fork pool pays off for the thorough tier only; on a loaded machine it starves the quick tier
         self.parallel = (tier == "thorough")
+        self.known_selftest()
+
+    # ---- known finding -------------------------------------------------------------------------------------------
+    def known(self, case, obs, failure, _rerun=None):
+        """F-C01a, exactly as recorded.  Input class: an exchange with an addon edit that WRITES Content-Length,
+        Transfer-Encoding or a non-token field name on one side (request / response) of flow i.  Failure: a clause of the
+        round-trip sentence for THAT side ('req:' / 'resp:' — not the ambiguity, pairing or other-side clauses).  Observation:
+        (1) the message flow i holds after the edits no longer describes itself (strict reader: ambiguous fields, bad name, or
+        a Content-Length / no framing that differs from the body the flow holds), (2) the proxy wrote the edited field line
+        verbatim on that side's connection, (3) the same case WITHOUT the framing-writing edits of that side passes every
+        clause of the oracle (the failure is the edit's, nothing else is excused)."""
+        if case.get("op", "x") != "x": return None
+        side = "request" if failure.startswith("req: ") else "response" if failure.startswith("resp: ") else None
+        if side is None: return None
+        fe = [e for e in case.get("edits", []) if is_framing_edit(e) and e["at"].startswith(side)]
+        if not fe: return None
+        flows = obs.get("flows", [])
+        hit = False
+        for e in fe:
+            if e["flow"] >= len(flows): continue
+            f = flows[e["flow"]]
+            if side == "request":
+                snap = f["req"] or f.get("req_head")
+                why = self_inconsistent(snap, True)
+                wire = b"".join(bytes.fromhex(h) for h in obs["server_out"].values())
+            else:
+                snap = f["resp"] or f.get("resp_head")
+                rq = f["req"] or f.get("req_head")
+                why = self_inconsistent(snap, False, unhx(rq["method"]) if rq else None)
+                wire = client_bytes(obs)
+            line = unhx(e["name_hex"]) + b": " + unhx(e["value_hex"]) + b"\r\n"
+            # (`headers[name] = v` keeps the spelling of an existing field's name: names compared case-insensitively)
+            if why is not None and line.lower() in wire.lower(): hit = True
+        if not hit: return None
+        c2 = dict(case); c2["edits"] = [e for e in case["edits"] if e not in fe]
+        rest = (_rerun or (lambda c: oracle_c01(c, X.run(c))))(c2)
+        if rest: return None
+        return "F-C01a"
+
+    def known_selftest(self):
+        """positive witnesses + near misses of the F-C01a classifier (notes/known_audit.txt); AssertionError = INFRA"""
+        req = b"POST /a HTTP/1.1\r\nHost: origin.example\r\nContent-Length: 3\r\n\r\nabc"
+        resp = b"HTTP/1.1 200 OK\r\nContent-Length: 2\r\n\r\nhi"
+        def mk(at, name, val, op="add"):
+            return {"op": "x", "mode": "reverse", "client_hex": hx(req), "resps": [{"data_hex": hx(resp), "close": False}],
+                    "edits": [{"flow": 0, "at": at, "op": op, "name_hex": hx(name), "value_hex": hx(val)}]}
+        for at, name, val, op in [("request", b"Content-Length", b"7", "add"), ("request", b"Transfer-Encoding", b"gzip", "add"),
+                                  ("request", b"X Bad", b"v", "add"), ("request", b"Content-Length", b"7", "set"),
+                                  ("response", b"Content-Length", b"7", "add"), ("response", b"Transfer-Encoding", b"chunked", "add")]:
+            c = mk(at, name, val, op); o = self.impl(c); fs = self.oracle(c, o)
+            assert fs and all(self.known(c, o, f) == "F-C01a" for f in fs), ("F-C01a witness no longer classified", at, name, val, fs)
+        c = mk("request", b"Content-Length", b"7"); o = self.impl(c); fs = self.oracle(c, o)
+        # (a) same input class, different failure: other clauses / the other side
+        for other in ("resp-pairing: the response relayed for request #0 is not the one the server sent for it (differs in ['body'])",
+                      "req-ambiguous: client request #0 is ambiguous (cl-conflict) but 1 request(s) were forwarded",
+                      "resp-ambiguous: server response #0 is ambiguous (cl-conflict) but was relayed",
+                      "resp: relayed response #0 differs from the recorded flow in ['body']"):
+            assert self.known(c, o, other) is None, ("another clause must not be excused", other)
+        # ... and a failure that is still there without the edit is not the edit's
+        assert self.known(c, o, fs[0], _rerun=lambda c2: ["req: forwarded request #0 differs from the recorded flow in ['body']"]) is None
+        # (b) neighbouring inputs, same kind of failure (observation transplanted)
+        near = mk("request", b"X-A", b"7")
+        assert self.known(near, o, fs[0]) is None, "an edit of a neutral header is outside the class"
+        near = mk("request", b"Content-Length", b"7"); near["edits"][0]["op"] = "del"
+        assert self.known(near, o, fs[0]) is None, "deleting a header is outside the class"
+        near = mk("request", b"Content-Length", b"9")
+        assert self.known(near, o, fs[0]) is None, "the edited line is not what was written: outside the recorded observation"
+        near = mk("request", b"Content-Length", b"3", "set"); o2 = self.impl(near)
+        assert not self.oracle(near, o2) and self.known(near, o2, fs[0]) is None, "an edit that keeps the message consistent is forwarded correctly"
+        near = mk("response", b"Content-Length", b"7")
+        assert self.known(near, o, fs[0]) is None, "a response-side edit does not excuse a request-side failure"
 
     # ---- translator ---------------------------------------------------------------------------------------------
     def translate(self):
@@ -625,6 +743,11 @@ class Check(PropertyCheck):
             if rng.chance(0.45):
                 c = X.gen_exchange(rng); c["op"] = "x"
                 if "scuts" not in c and rng.chance(0.3): c = X.gen_schedule(rng, c)
+                if rng.chance(0.04):
+                    # "arbitrary addon edits of headers": an addon that writes a framing field or a non-token name (F-C01a)
+                    k, v = rng.pick(FRAMING_EDITS)
+                    c["edits"] = add_framing_edit(c.get("edits", []), rng.randrange(3), rng.pick(["request", "response", "requestheaders", "responseheaders"]),
+                                                  rng.pick(["add", "set"]), k, v)
                 yield c
             else:
                 yield from self.fn_cases(rng)
